@@ -398,7 +398,7 @@ PROPS = {
         "timeout": {"quick": 1200, "thorough": 5400},
     },
     "C17": {
-        "lean": ["Knut.Properties.C17", "Knut.FactsAgree.TransTable", "Knut.FactsAgree.TransRender", "Knut.FactsAgree.TransRenderVals", "Knut.Properties.C17Go", "Knut.FactsAgree.TransTableRender", "Knut.FactsAgree.TransTableRender2", "Knut.FactsAgree.TransTableRender3", "Knut.FactsAgree.TransTableCsv", "Knut.FactsAgree.TransTableBuild", "Knut.FactsAgree.TransTableLog"],
+        "lean": ["Knut.Properties.C17", "Knut.FactsAgree.TransTable", "Knut.FactsAgree.TransRender", "Knut.FactsAgree.TransRenderVals", "Knut.Properties.C17Go", "Knut.FactsAgree.TransTableRender", "Knut.FactsAgree.TransTableRender2", "Knut.FactsAgree.TransTableRender3", "Knut.FactsAgree.TransTableCsv", "Knut.FactsAgree.TransTableBuild", "Knut.FactsAgree.TransTableLog", "Knut.Properties.C17Go2"],
         "level": "proof",
         "claim": "Lean theorems over the model of lib/common/table (TextRenderer.Render incl. both width passes and the panic outcomes, numToString, addThousandsSep, "
                  "CSVRenderer.Render with encoding/csv quoting), for all tables whose rows have a common number n>=1 of cells with non-negative indents and no line breaks, "
